@@ -107,6 +107,22 @@ Definition run_endpoint (buffered latching : bool) (size : nat) (ls : list elabe
     let F := ru_framer [10%N] 64 false id_dec in
     L (map enc_eres (eres (erun (copy_smachine F size) false latching (einit (cinit F)) ls))).
 
+(* mode 4: the buffer-filling blocking receiver over fixed-size records (bfx_framer, identity codec)
+   input  = L [A 4; A size; A sizehint; L calls; L events; ...]   as mode 1; output as mode 1 *)
+Definition enc_bres_n (r : @bres (nres bytes)) : sx :=
+  match r with
+  | BPacket (RPkt p) => L [A 0; B p]
+  | BPacket _ => L [A 4]
+  | BTimedOut => L [A 1]
+  | BClosed => L [A 2]
+  | BStuck => L [A 9]
+  end%Z.
+
+Definition run_blocking_buffered (size hint : nat) (calls : list bool) (evs : list bevent) : sx :=
+  let F := bfx_framer size id_dec in
+  let '(_, _, rs) := brunb (bufc_drain F hint) (bufc_room F hint) (bufc_feed F hint) calls (bcinit F) false evs in
+  L (map enc_bres_n rs).
+
 Definition run (i : sx) : sx :=
   match i with
   | L (A 0%Z :: fx :: lbls :: _) =>
@@ -121,6 +137,10 @@ Definition run (i : sx) : sx :=
       do buffered <- as_bool bf;
       do ls <- as_list_of dec_elabel lbls;
       run_endpoint buffered (Z.eqb layer 0) (Z.to_nat size) ls
+  | L (A 4%Z :: A size :: A hint :: calls :: evs :: _) =>
+      do cs <- as_list_of as_bool calls;
+      do es <- as_list_of dec_event evs;
+      run_blocking_buffered (Z.to_nat size) (Z.to_nat hint) cs es
   | L (A 1%Z :: A size :: A bufsize :: calls :: evs :: _) =>
       do cs <- as_list_of as_bool calls;
       do es <- as_list_of dec_event evs;
